@@ -10,7 +10,7 @@ package main
 //@ hook after (hash.Hash).Reset(h)
 //@   wr[h] = spec.HEmpty()
 //@ hook after (hash.Hash).Write(h, p) (n, err)
-//@   wr[h] = spec.HWrite(wr[h], p)
+//@   wr[h] = spec.HWriteS(wr[h], str(p))
 //@ hook after io.WriteString(w, s) (n, err)
 //@   wr[w] = spec.HWriteS(wr[w], s)
 //@ end
@@ -22,6 +22,8 @@ package main
 //@   requires len(salt) > 0 && name != ""
 //@   requires spec.IsURLNoPad(nameBase64)
 //@   assigns sumBuffer, b64NameBuffer, ghost wr
+//@   deterministic @pure-function: in salt, flagSeed.bytes, name
+//@   ensures @hash-input: wr[hasher] == spec.HWriteS(spec.HWriteS(spec.HWriteS(spec.HEmpty(), old(str(salt))), old(str(flagSeed.bytes))), name)
 //@   ensures @length: 6 <= len(r0) && len(r0) <= 12
 //@   ensures @alphabet: forall i int :: 0 <= i && i < len(r0) ==> spec.IdentChar(r0[i])
 //@   ensures @first-not-digit: !spec.IsDigit(r0[0])
@@ -31,6 +33,7 @@ package main
 //@     invariant forall j int :: 0 <= j && j < i ==> b64Name[j] != '-'
 //@     invariant forall j int :: 0 <= j && j < len(b64Name) ==> spec.B64URL(b64Name[j])
 //@     invariant !spec.IsDigit(b64Name[0])
+//@     invariant @functional: forall j int :: 0 <= j && j < len(b64Name) ==> b64Name[j] == ite(j < i && entry(b64Name[j]) == '-', 'a', entry(b64Name[j]))
 //@ end
 
 //@ func splitFlagsFromArgs
@@ -87,4 +90,82 @@ package main
 //@   loop 0
 //@     invariant forall j int :: 0 <= j && j < _i ==> !strings.HasPrefix(flags[j], name+"=") && flags[j] != name
 //@     invariant forall j int :: 0 <= j && j < len(flags) ==> flags[j] == old(flags[j])
+//@ end
+
+// ---- C12: salting ----
+
+//@ hookset hasher
+//@ hook after fmt.Fprintf(w, format, a0) (n, err)
+//@   wr[w] = spec.HWriteS(wr[w], fmt.Sprintf(format, a0))
+//@ end
+
+//@ func (*listedPackages).get
+//@   pure
+//@   trusted lazily decodes and memoises the entry for a path; as a function of (l, path) it is a lookup
+
+//@ func (seedFlag).String
+//@   inline
+
+//@ func typeutil_hash
+//@   pure
+//@   trusted wrapper around typeutil_hasher.hash, whose struct case is verified under C15
+
+//@ func appendFlags
+//@   property C12 C06
+//@   spec hashstate.smt2 garbleflags.smt2
+//@   hooks hasher
+//@   assigns ghost wr
+//@   ensures @build-hash-flags: forBuildHash ==> wr[w] == spec.BuildFlags(old(wr[w]), flagLiterals, flagTiny, len(flagSeed.bytes) > 0, flagSeed.String(), flagControlFlow, literals.TestObfuscator)
+//@   ensures @child-flags: !forBuildHash ==> wr[w] == spec.ChildFlags(old(wr[w]), flagLiterals, flagTiny, flagDebug, flagDebugDir, len(flagSeed.bytes) > 0, flagSeed.String())
+//@ end
+
+//@ func addGarbleToHash
+//@   property C12 C06
+//@   spec hashstate.smt2 garbleflags.smt2
+//@   hooks hasher
+//@   requires sharedCache != nil
+//@   may_panic when len(sharedCache.BinaryContentID) == 0
+//@   assigns ghost wr
+//@   ensures @hash-input: wr[hasher] == spec.BuildFlags(spec.HWriteS(spec.HWriteS(spec.HWriteS(spec.HEmpty(), str(inputHash)), str(sharedCache.BinaryContentID)), fmt.Sprintf(" GOGARBLE=%s", sharedCache.GOGARBLE)), flagLiterals, flagTiny, len(flagSeed.bytes) > 0, flagSeed.String(), flagControlFlow, literals.TestObfuscator)
+//@   ensures @sum: forall j int :: 0 <= j && j < 32 ==> r0[j] == spec.ShaByte(wr[hasher], j)
+//@   deterministic @inputs: in inputHash, sharedCache.BinaryContentID, sharedCache.GOGARBLE, flagLiterals, flagTiny, flagSeed.bytes, flagControlFlow, literals.TestObfuscator
+//@ end
+
+//@ func hashWithPackage
+//@   property C12 C16
+//@   spec chars.smt2 hashstate.smt2
+//@   hooks hasher
+//@   requires name != "" && pkg != nil
+//@   requires spec.IsURLNoPad(nameBase64)
+//@   assigns sumBuffer, b64NameBuffer, ghost wr
+//@   ensures @length: 6 <= len(r0) && len(r0) <= 12
+//@   ensures @alphabet: forall i int :: 0 <= i && i < len(r0) ==> spec.IdentChar(r0[i])
+//@   ensures @first-not-digit: !spec.IsDigit(r0[0])
+//@   ensures @export-preserved: token.IsIdentifier(name) ==> (spec.IsUpper(r0[0]) <==> token.IsExported(name))
+//@   ensures @seeded-hash-input: len(flagSeed.bytes) > 0 ==> wr[hasher] == spec.HWriteS(spec.HWriteS(spec.HWriteS(spec.HEmpty(), pkg.ImportPath+"|"), old(str(flagSeed.bytes))), name)
+//@   ensures @unseeded-hash-input: len(flagSeed.bytes) == 0 ==> wr[hasher] == spec.HWriteS(spec.HWriteS(spec.HWriteS(spec.HEmpty(), old(str(pkg.GarbleActionID[:]))), old(str(flagSeed.bytes))), name)
+//@   deterministic @seeded-name-from-seed-path-name: when len(flagSeed.bytes) > 0 in flagSeed.bytes, pkg.ImportPath, name
+//@   deterministic @unseeded-name-from-action-id: when len(flagSeed.bytes) == 0 in flagSeed.bytes, pkg.GarbleActionID, name
+//@ end
+
+//@ func hashWithStruct
+//@   property C12 C15 C16
+//@   spec chars.smt2 hashstate.smt2 garbleflags.smt2
+//@   hooks hasher
+//@   requires field.Name() != "" && sharedCache != nil && len(sharedCache.BinaryContentID) > 0
+//@   requires spec.IsURLNoPad(nameBase64)
+//@   assigns sumBuffer, b64NameBuffer, ghost wr
+//@   ensures @length: 6 <= len(r0) && len(r0) <= 12
+//@   ensures @alphabet: forall i int :: 0 <= i && i < len(r0) ==> spec.IdentChar(r0[i])
+//@   ensures @first-not-digit: !spec.IsDigit(r0[0])
+//@   ensures @export-preserved: token.IsIdentifier(field.Name()) ==> (spec.IsUpper(r0[0]) <==> token.IsExported(field.Name()))
+//@   deterministic @seeded-field-from-seed-shape-name: when len(flagSeed.bytes) > 0 in flagSeed.bytes, typeutil_hash(strct), field.Name()
+//@   deterministic @unseeded-field-from-shape-and-garble-inputs: when len(flagSeed.bytes) == 0 in flagSeed.bytes, typeutil_hash(strct), field.Name(), sharedCache.BinaryContentID, sharedCache.GOGARBLE, flagLiterals, flagTiny, flagControlFlow, literals.TestObfuscator
+//@ end
+
+//@ func (*seedFlag).Set
+//@   property C12
+//@   ensures @accepted-has-8-bytes: r0 == nil ==> len(f.bytes) >= 8
+//@   ensures @rejected-keeps-seed: r0 != nil && old(s) != "random" ==> ref(f.bytes) == old(ref(f.bytes)) && len(f.bytes) == old(len(f.bytes))
+//@   ensures @random-is-8: old(s) == "random" && r0 == nil ==> len(f.bytes) == 8 && f.random
 //@ end
